@@ -107,10 +107,42 @@ fn guarded<R: Default>(f: impl FnOnce() -> R) -> R {
 }
 
 /// `exec` runs one complete execution under the chooser (it builds its own runtime).
+fn replay_target() -> Option<(String, Option<Vec<usize>>, Option<usize>)> {
+    let sc = std::env::var("VERIF_REPLAY_SCENARIO").ok()?;
+    let choices = std::env::var("VERIF_REPLAY_CHOICES").ok().map(|c| c.split(',').filter(|x| !x.is_empty()).map(|x| x.parse().unwrap_or(0)).collect());
+    let case = std::env::var("VERIF_REPLAY_CASE").ok().and_then(|c| c.parse().ok());
+    Some((sc, choices, case))
+}
+
+fn empty_stats() -> Stats {
+    Stats { executions: 0, transitions: 0, distinct_outcomes: 0, max_points: 0, bound_completed: 0, exhaustive: true, unstable: 0, diverged: 0, samples: vec![], outcomes: BTreeMap::new() }
+}
+
 pub fn explore<F>(rep: &Report, scenario: &str, bound: usize, wall_cap: Duration, exec: F) -> Stats
 where
     F: Fn(&mut Chooser, &WorkerCtx) -> ExecResult + Sync,
 {
+    if let Some((sc, choices, _)) = replay_target() {
+        // replay mode: run exactly one recorded schedule of one scenario, twice, and report what it shows
+        if sc != scenario { return empty_stats(); }
+        let ctx = WorkerCtx { heartbeat: Arc::new(AtomicU64::new(0)), listeners: crate::world::Listeners::new() };
+        let choices = choices.unwrap_or_default();
+        let mut first: Option<Vec<String>> = None;
+        for round in 0..2 {
+            let mut ch = Chooser::new(choices.clone(), vec![]);
+            let res = exec(&mut ch, &ctx);
+            println!("REPLAY {} round {}: schedule={:?} outcome={} violations={:?}", scenario, round, ch.trace(), res.outcome, res.violations.iter().map(|v| &v.0).collect::<Vec<_>>());
+            let kinds: Vec<String> = res.violations.iter().map(|v| v.0.clone()).collect();
+            if round == 0 { first = Some(kinds.clone()); for (k, d) in &res.violations { rep.violation(k, json!({"scenario": scenario, "schedule": ch.trace(), "choices": ch.choices(), "detail": d})); } }
+            else if first.as_ref() != Some(&kinds) { println!("MACHINERY-ERROR: the two replays of the same schedule differ"); std::process::exit(6); }
+        }
+        let mut st = empty_stats();
+        st.executions = 2;
+        st.transitions = choices.len() as u64 + 1;
+        st.outcomes.insert("replay".into(), 1);
+        st.distinct_outcomes = 1;
+        return st;
+    }
     let nworkers: usize = std::env::var("VERIF_THREADS").ok().and_then(|s| s.parse().ok()).unwrap_or(16);
     let shared = Shared { queue: Mutex::new((vec![Work { prefix: vec![], expect: vec![] }], 0)), cv: Condvar::new(), abort: AtomicBool::new(false) };
     let start = Instant::now();
@@ -250,6 +282,25 @@ pub fn for_all<T: Sync, F>(rep: &Report, scenario: &str, cases: &[T], exec: F) -
 where
     F: Fn(&T, &WorkerCtx) -> ExecResult + Sync,
 {
+    if let Some((sc, _, case)) = replay_target() {
+        if sc != scenario { return empty_stats(); }
+        let ctx = WorkerCtx { heartbeat: Arc::new(AtomicU64::new(0)), listeners: crate::world::Listeners::new() };
+        let i = case.unwrap_or(0).min(cases.len().saturating_sub(1));
+        let mut first: Option<Vec<String>> = None;
+        for round in 0..2 {
+            let res = exec(&cases[i], &ctx);
+            println!("REPLAY {} case {} round {}: outcome={} violations={:?}", scenario, i, round, res.outcome, res.violations.iter().map(|v| &v.0).collect::<Vec<_>>());
+            let kinds: Vec<String> = res.violations.iter().map(|v| v.0.clone()).collect();
+            if round == 0 { first = Some(kinds.clone()); for (k, d) in &res.violations { rep.violation(k, json!({"scenario": scenario, "case_index": i, "detail": d})); } }
+            else if first.as_ref() != Some(&kinds) { println!("MACHINERY-ERROR: the two replays of the same case differ"); std::process::exit(6); }
+        }
+        let mut st = empty_stats();
+        st.executions = 2;
+        st.transitions = 1;
+        st.outcomes.insert("replay".into(), 1);
+        st.distinct_outcomes = 1;
+        return st;
+    }
     let nworkers: usize = std::env::var("VERIF_THREADS").ok().and_then(|s| s.parse().ok()).unwrap_or(16);
     let next = AtomicU64::new(0);
     let outcomes: Mutex<BTreeMap<String, u64>> = Mutex::new(BTreeMap::new());
